@@ -10,8 +10,10 @@ use winter_air::{
 };
 use winter_crypto::{ElementHasher, RandomCoin};
 use winter_math::{ExtensibleField, ExtensionOf, FieldElement, StarkField, ToElements};
+use winter_air::{proof::Queries, LagrangeKernelEvaluationFrame};
+use winter_crypto::Hasher;
 use winter_prover::{
-    matrix::ColMatrix, DefaultConstraintEvaluator, DefaultTraceLde, Prover, ProverGkrProof, StarkDomain, Trace,
+    matrix::ColMatrix, DefaultConstraintEvaluator, DefaultTraceLde, Prover, ProverGkrProof, StarkDomain, Trace, TraceLde,
     TracePolyTable,
 };
 
@@ -429,6 +431,14 @@ pub struct ShapeProver<B: SField, H: ElementHasher<BaseField = B>, R: RandomCoin
     pub claim: Option<ShapeInputs<B>>,
     /// soundness scenarios: add one to this cell (column, step) of the auxiliary segment after building it
     pub aux_corrupt: Option<(usize, usize)>,
+    /// soundness scenarios: the COMMITTED low-degree extension (what the openings come from) is made from a segment whose cell
+    /// (auxiliary?, column, step) is one higher, while constraint evaluation, out-of-domain frame and DEEP composition use the
+    /// honest polynomials: the opened column is not the polynomial behind the out-of-domain frame
+    pub lde_cheat: Option<(bool, usize, usize)>,
+    /// soundness scenarios: commit to constraint composition columns that differ from the ones the out-of-domain evaluations are
+    /// taken from: with two or more columns, column 0 plus delta and column 1 minus delta (their sum is unchanged), with one
+    /// column, column 0 plus delta (delta = 1)
+    pub comp_cheat: bool,
     pub _p: PhantomData<(H, R)>,
 }
 
@@ -438,7 +448,7 @@ impl<B: SField, H: ElementHasher<BaseField = B> + Sync + Send, R: RandomCoin<Bas
     type Trace = ShapeTrace<B>;
     type HashFn = H;
     type RandomCoin = R;
-    type TraceLde<E: FieldElement<BaseField = B>> = DefaultTraceLde<E, H>;
+    type TraceLde<E: FieldElement<BaseField = B>> = CheatLde<E, H>;
     type ConstraintEvaluator<'a, E: FieldElement<BaseField = B>> = DefaultConstraintEvaluator<'a, ShapeAir<B>, E>;
 
     fn get_pub_inputs(&self, trace: &Self::Trace) -> ShapeInputs<B> {
@@ -459,7 +469,17 @@ impl<B: SField, H: ElementHasher<BaseField = B> + Sync + Send, R: RandomCoin<Bas
         main_trace: &ColMatrix<B>,
         domain: &StarkDomain<B>,
     ) -> (Self::TraceLde<E>, TracePolyTable<E>) {
-        DefaultTraceLde::new(trace_info, main_trace, domain)
+        let (honest, polys) = DefaultTraceLde::new(trace_info, main_trace, domain);
+        let (junk, aux_cheat) = match self.lde_cheat {
+            None => (None, None),
+            Some((false, c, i)) => {
+                let mut cols: Vec<Vec<B>> = (0..main_trace.num_cols()).map(|k| main_trace.get_column(k).to_vec()).collect();
+                cols[c][i] += B::ONE;
+                (Some(DefaultTraceLde::new(trace_info, &ColMatrix::new(cols), domain).0), None)
+            },
+            Some((true, c, i)) => (Some(DefaultTraceLde::new(trace_info, main_trace, domain).0), Some((c, i))),
+        };
+        (CheatLde { honest, junk, aux_cheat }, polys)
     }
 
     fn new_evaluator<'a, E: FieldElement<BaseField = B>>(
@@ -469,6 +489,26 @@ impl<B: SField, H: ElementHasher<BaseField = B> + Sync + Send, R: RandomCoin<Bas
         composition_coefficients: ConstraintCompositionCoefficients<E>,
     ) -> Self::ConstraintEvaluator<'a, E> {
         DefaultConstraintEvaluator::new(air, aux_rand_elements, composition_coefficients)
+    }
+
+    fn build_constraint_commitment<E: FieldElement<BaseField = B>>(
+        &self,
+        composition_poly_trace: winter_prover::CompositionPolyTrace<E>,
+        num_constraint_composition_columns: usize,
+        domain: &StarkDomain<B>,
+    ) -> (winter_prover::ConstraintCommitment<E, H>, winter_prover::CompositionPoly<E>) {
+        use winter_prover::{matrix::RowMatrix, CompositionPoly, ConstraintCommitment};
+        let composition_poly = CompositionPoly::new(composition_poly_trace, domain, num_constraint_composition_columns);
+        let mut cols: Vec<Vec<E>> = (0..composition_poly.num_columns()).map(|k| composition_poly.data().get_column(k).to_vec()).collect();
+        if self.comp_cheat {
+            cols[0][0] += E::ONE;
+            if cols.len() >= 2 {
+                cols[1][0] -= E::ONE;
+            }
+        }
+        let evaluations = RowMatrix::evaluate_polys_over::<8>(&ColMatrix::new(cols), domain);
+        let commitment = evaluations.commit_to_rows();
+        (ConstraintCommitment::new(evaluations, commitment), composition_poly)
     }
 
     fn generate_gkr_proof<E: FieldElement<BaseField = B>>(&self, main_trace: &Self::Trace, public_coin: &mut R) -> (ProverGkrProof<Self>, LagrangeKernelRandElements<E>) {
@@ -485,5 +525,67 @@ impl<B: SField, H: ElementHasher<BaseField = B> + Sync + Send, R: RandomCoin<Bas
             cols[c][i] += E::ONE;
         }
         ColMatrix::new(cols)
+    }
+}
+
+
+/// A trace LDE whose commitment and openings may come from a different segment than the one the prover computes with
+/// (soundness scenarios: "the committed column is not the polynomial behind the out-of-domain frame"); with `junk = None`
+/// it is the DefaultTraceLde.
+pub struct CheatLde<E: FieldElement, H: ElementHasher<BaseField = E::BaseField>> {
+    honest: DefaultTraceLde<E, H>,
+    junk: Option<DefaultTraceLde<E, H>>,
+    aux_cheat: Option<(usize, usize)>,
+}
+
+impl<E: FieldElement, H: ElementHasher<BaseField = E::BaseField> + Sync> TraceLde<E> for CheatLde<E, H>
+where
+    DefaultTraceLde<E, H>: TraceLde<E, HashFn = H>,
+{
+    type HashFn = H;
+
+    fn get_main_trace_commitment(&self) -> <H as Hasher>::Digest {
+        self.junk.as_ref().unwrap_or(&self.honest).get_main_trace_commitment()
+    }
+
+    fn set_aux_trace(&mut self, aux_trace: &ColMatrix<E>, domain: &StarkDomain<E::BaseField>) -> (ColMatrix<E>, <H as Hasher>::Digest) {
+        let (polys, root) = self.honest.set_aux_trace(aux_trace, domain);
+        if let Some(j) = self.junk.as_mut() {
+            let mut cols: Vec<Vec<E>> = (0..aux_trace.num_cols()).map(|k| aux_trace.get_column(k).to_vec()).collect();
+            if let Some((c, i)) = self.aux_cheat {
+                cols[c][i] += E::ONE;
+            }
+            let (_, jroot) = j.set_aux_trace(&ColMatrix::new(cols), domain);
+            return (polys, jroot);
+        }
+        (polys, root)
+    }
+
+    fn read_main_trace_frame_into(&self, lde_step: usize, frame: &mut EvaluationFrame<E::BaseField>) {
+        self.honest.read_main_trace_frame_into(lde_step, frame)
+    }
+
+    fn read_aux_trace_frame_into(&self, lde_step: usize, frame: &mut EvaluationFrame<E>) {
+        self.honest.read_aux_trace_frame_into(lde_step, frame)
+    }
+
+    fn read_lagrange_kernel_frame_into(&self, lde_step: usize, col_idx: usize, frame: &mut LagrangeKernelEvaluationFrame<E>) {
+        self.honest.read_lagrange_kernel_frame_into(lde_step, col_idx, frame)
+    }
+
+    fn query(&self, positions: &[usize]) -> Vec<Queries> {
+        self.junk.as_ref().unwrap_or(&self.honest).query(positions)
+    }
+
+    fn trace_len(&self) -> usize {
+        self.honest.trace_len()
+    }
+
+    fn blowup(&self) -> usize {
+        self.honest.blowup()
+    }
+
+    fn trace_info(&self) -> &TraceInfo {
+        self.honest.trace_info()
     }
 }
